@@ -200,9 +200,11 @@ def primitive_event_once(run, roles, rule):
         ok = len(own) == 1 and len(evs) == 1 and all(i > own[0][0] for i, _ in warns)
         run.ob(rule, ok, f"primitive walker [{lab}]: the field's own event is emitted exactly once, before any warning",
                f"on the path [{lab}] a completed primitive emits {len(own)} events of its own and {len(warns)} warning(s)"
-               f"{' before its event' if own and any(i < own[0][0] for i, _ in warns) else ''}: a decoded field "
-               f"{'disappears from' if not own else 'is duplicated in'} the event stream (its bytes are then missing from / "
-               "doubled in the re-encoding, and every later field is misaligned)", module=mod, node=p.node or fn, func=fn.name,
+               f"{' before its event' if own and any(i < own[0][0] for i, _ in warns) else ''}: " +
+               ("the warning about a value precedes the event carrying that value (the offending event must come first)"
+                if len(own) == 1 and len(evs) == 1 else
+                f"a decoded field {'disappears from' if not own else 'is duplicated in'} the event stream (its bytes are then missing from / "
+                "doubled in the re-encoding, and every later field is misaligned)"), module=mod, node=p.node or fn, func=fn.name,
                construct="primitive event once")
 
 
